@@ -8,7 +8,7 @@ destinations, one plain and one with --use-cache / --checksum-db / --resume and 
 (optionally damaged: truncated, garbage, other version); each run is also compared with Engine.run; (3) every cache
 file a run leaves is inspected for the invariant the theorem uses (no "." entry).
 Oracle: after every step the two destinations are equal minus sy's own metadata files."""
-import json, os, shutil
+import json, os, datetime, shutil
 import vlib, world, engine_world as ew
 from common import proof_phase, TRUSTED_COMMON
 
@@ -48,7 +48,7 @@ def api_cases(r, n):
 
 
 # ------------------------------------------------------------------ histories
-def edit_source(r, src, state, force=None, force_on=None):
+def edit_source(r, src, state, force=None, force_on=None, only=None):
     """one burst of edits; every edit changes size or mtime of what it touches (the property's premise).
     state: rel -> (seed, size, mt_ns) of regular files"""
     log = []
@@ -58,6 +58,8 @@ def edit_source(r, src, state, force=None, force_on=None):
     def fresh_mt(rel, size, mt, step):
         return mt if mt > 0 else 10 * NS
     kinds = [r.choice(["create", "modsize", "samesize_later", "samesize_earlier", "samesize_subsecond", "delete", "rename", "dir2file", "file2dir", "create"]) for _ in range(r.randrange(1, 4))]
+    if only is not None:
+        kinds = list(only)          # a calm history: exactly these edits
     if force and files:
         kinds.append(force)
     for kind in kinds:
@@ -202,9 +204,15 @@ def run_history(sc, seed, i, known, stats):
     for k in range(1, steps + 1):
         # database histories always contain an older same-size version put back (the lookup key must be exact)
         synced = [p for p in state if not p.startswith("\0") and os.path.isfile(os.path.join(db, p))]
+        if name == "state":
+            # the edit goes to a file the planted state file is going to list (the first five synced paths), non-empty when there is one
+            listed = sorted(synced)[:5]
+            synced = [p for p in listed if state[p][1] > 0] or listed
         history.append(edit_source(r, src, state, force=(("samesize_earlier" if k % 2 == 0 else "samesize_subsecond") if ("db" in name or name == "all") and k >= 2 else
-                                                         (r.choice(["samesize_later", "modsize"]) if name == "state" and k >= 2 else None)),
-                                   force_on=synced if name == "state" else None))
+                                                         (r.choice(["samesize_later", "samesize_later", "samesize_earlier", "modsize"]) if name == "state" and k >= 2 else None)),
+                                   force_on=synced if name == "state" else None,
+                                   # every other 'state' history is calm: a few files created once, then one edit per step to a listed file
+                                   only=((["create"] * 5 if k == 1 else []) if name == "state" and (i // len(AUX_SETS)) % 2 == 0 else None)))
         fl = {"j": 1}
         if use_delete:
             fl.update({"delete": 1, "thr": thr})
@@ -232,7 +240,9 @@ def run_history(sc, seed, i, known, stats):
             # paths an interrupted earlier run would have completed: files that are in the destination now
             paths = [p for p in sorted(k for k in state if not k.startswith("\0")) if os.path.isfile(os.path.join(db, p))][:5]
             if paths:
-                vlib.run_sharded([os.path.join(vlib.BIN, "h_cache")], ["RS %s %d %s" % (db.encode().hex(), 1 if use_delete else 0, ",".join(p.encode().hex() for p in paths))], shards=1)
+                vlib.run_sharded([os.path.join(vlib.BIN, "h_cache")], ["RS %s %d %s %s" % (db.encode().hex(), 1 if use_delete else 0, ",".join(p.encode().hex() for p in paths),
+                                                                              # completed when the earlier run was made: now (an honest leftover), or some date before the files' time stamps
+                                                                              datetime.datetime.now(datetime.timezone.utc).isoformat() if r.random() < 0.8 else "2020-01-01T00:00:00+00:00")], shards=1)
                 dmg.append(("valid-state", paths))
         tag = {"history": i, "seed": seed, "step": k, "aux": name, "flags": fl, "edits": history, "damage": dmg}
         meta_before = [m for m in META if os.path.exists(os.path.join(db, m))]
@@ -316,7 +326,7 @@ def run(tier, seed):
             if a != m:
                 diffs.append({"what": "ChecksumDatabase / DirectoryCache API differs from Caches.v", "case": c[:600], "impl": a, "model": m})
         stats["api_cases"] = len(lines)
-        nh = 14 if tier == "quick" else 150
+        nh = 21 if tier == "quick" else 154
         cases, obs = [], []
         for i in range(nh):
             v, h, d, cs, ob = run_history(sc, seed, i, known, stats)
